@@ -624,6 +624,7 @@ struct Child {
     nontrivial: bool,
     excluded: u64,
     stopped: bool,
+    abandon: bool,
     trouble: Option<String>,
     /// element count passed to c2pa_free_string_array for the current call
     arg_count: usize,
@@ -651,6 +652,7 @@ impl Child {
             nontrivial: false,
             excluded: 0,
             stopped: false,
+            abandon: false,
             trouble: None,
             arg_count: 0,
             new_mem: None,
@@ -668,10 +670,12 @@ impl Child {
         Err(())
     }
 
+    /// A canonical (all-valid) constructor call failed with a regular error, e.g. because earlier generated calls
+    /// changed the thread-local settings: the generated call that needed the handle is abandoned, the sequence goes on.
     fn harness_trouble(&mut self, what: String) -> Result<usize, ()> {
-        emit(json!({"e": "trouble", "what": what}));
-        self.trouble = Some(what);
-        self.stopped = true;
+        emit(json!({"e": "abandon", "what": what}));
+        self.count("generated_call_abandoned_canonical_constructor_failed");
+        self.abandon = true;
         Err(())
     }
 
@@ -730,7 +734,8 @@ impl Child {
                 Ok(ctx)
             }
             K::Reader => {
-                let s = self.pick_live(K::Stream, R_SIGNED, 0, &[])?;
+                // always a fresh stream over the signed fixture (a live one may have been overwritten since)
+                let s = self.ensure(K::Stream, R_SIGNED)?;
                 self.with_args("c2pa_reader_from_stream", &[s], [0; 3])
             }
             K::Builder => {
@@ -837,6 +842,16 @@ impl Child {
     /// Resolve the selectors of one generated call and perform it. At most one handle argument is invalid
     /// (the first non-live selector wins) so that a failure is attributed to exactly one (parameter, class).
     fn call(&mut self, c: &Call) -> Result<Ret, ()> {
+        match self.call_inner(c) {
+            Err(()) if self.abandon && !self.stopped => {
+                self.abandon = false;
+                Ok(Ret::Skipped)
+            }
+            r => r,
+        }
+    }
+
+    fn call_inner(&mut self, c: &Call) -> Result<Ret, ()> {
         let fi = c.f as usize % SPECS.len();
         let spec = &SPECS[fi];
         let mut a = [0usize; 4];
@@ -1600,6 +1615,7 @@ struct Outcome {
     counts: BTreeMap<String, u64>,
     nontrivial: bool,
     excluded: u64,
+    notes: Vec<String>,
 }
 
 /// A running `--child` fork server.
@@ -1636,7 +1652,7 @@ fn shutdown_zygotes() {
 }
 
 fn run_child(case: &Case, skip: &[String], selftest: u8, timeout_s: u64) -> Outcome {
-    let mut o = Outcome { fail: None, inconclusive: None, counts: BTreeMap::new(), nontrivial: false, excluded: 0 };
+    let mut o = Outcome { fail: None, inconclusive: None, counts: BTreeMap::new(), nontrivial: false, excluded: 0, notes: vec![] };
     let mut input = json!({"case": case, "skip": skip, "selftest": selftest, "timeout_s": timeout_s}).to_string();
     input.push('\n');
     let z = ZYGOTES.lock().unwrap().pop();
@@ -1722,6 +1738,7 @@ fn run_child(case: &Case, skip: &[String], selftest: u8, timeout_s: u64) -> Outc
                     format!("{} | calls: {}", v["what"].as_str().unwrap_or(""), tail.join(" ; ")),
                 ));
             }
+            "note" => o.notes.push(v["what"].as_str().unwrap_or("").to_string()),
             "panic" => {
                 if !v["in_call"].as_bool().unwrap_or(false) {
                     harness_panic = Some(v["msg"].as_str().unwrap_or("").to_string());
@@ -1849,6 +1866,14 @@ fn main() {
         }
         if o.nontrivial {
             run.nontrivial(case);
+        }
+        for n in &o.notes {
+            // keep one note per distinct library function
+            let key = format!("noted:{}", n.split(';').next().unwrap_or(""));
+            if run.hist_get(&key) == 0 {
+                run.note(n.clone());
+            }
+            run.count(&key);
         }
         if let Some(w) = o.inconclusive {
             run.inconclusive(w);
